@@ -413,6 +413,44 @@ fn gen_index_range_case(r: &mut Rng) -> Case {
     Case { schema, rows, pred, int_truthy: false, index_on: Some(ix) }
 }
 
+/// LIKE / BETWEEN / IN-list with constant operands under OR, CASE and NOT, on rows that reach the
+/// truth of the predicate through different disjuncts (a value cached from one row and reused for the
+/// next shows up here), first rows chosen so that the first and the later rows disagree on the sub-predicate
+fn gen_cached_subpredicate_case(r: &mut Rng) -> Case {
+    let schema = Schema { table: "t".into(), cols: vec![("c0".into(), Ty::Int), ("c1".into(), Ty::Str), ("c2".into(), Ty::Int)] };
+    let n = *r.pick(&[2usize, 3, 6, 12, 40]);
+    let strs = ["a", "ab", "abc", "b", "ba", "", "xa"];
+    let mut rows: Vec<Vec<Lit>> = (0..n)
+        .map(|_| vec![
+            if r.chance(1, 8) { Lit::Null } else { Lit::I(r.range(0, 6)) },
+            if r.chance(1, 8) { Lit::Null } else { Lit::S(r.pick(&strs).to_string()) },
+            if r.chance(1, 8) { Lit::Null } else { Lit::I(r.range(0, 6)) },
+        ])
+        .collect();
+    let pat = r.pick(&["a%", "%a", "_b%", "a", "%"]).to_string();
+    let like = E::Like(Box::new(E::Col(1)), Box::new(E::Lit(Lit::S(pat))), r.chance(1, 4));
+    let k = r.range(1, 4);
+    let between = E::Between(Box::new(E::Col(0)), Box::new(E::Lit(Lit::I(k))), Box::new(E::Lit(Lit::I(k + r.range(0, 2)))), r.chance(1, 4));
+    let inlist = E::InList(Box::new(E::Col(0)), vec![Lit::I(k), Lit::I(k + 2), Lit::I(9)], r.chance(1, 4));
+    let sub = match r.below(4) { 0 | 1 => like, 2 => between, _ => inlist };
+    let other = E::Bin(*r.pick(&[Op::Gt, Op::Le, Op::Eq]), Box::new(E::Col(2)), Box::new(E::Lit(Lit::I(r.range(1, 4)))));
+    let pred = match r.below(5) {
+        0 | 1 => E::Bin(Op::Or, Box::new(sub), Box::new(other)),
+        2 => E::Bin(Op::Or, Box::new(other), Box::new(sub)),
+        3 => E::Ite(Box::new(sub), Box::new(other.clone()), Box::new(E::Not(Box::new(other)))),
+        _ => E::Bin(Op::Or, Box::new(E::Not(Box::new(sub))), Box::new(other)),
+    };
+    // the first row fails the sub-predicate's usual positive form but passes `other` (c2 large), the second the opposite
+    if rows.len() >= 2 {
+        rows[0] = vec![Lit::I(9), Lit::S("zz".into()), Lit::I(5)];
+        rows[1] = vec![Lit::I(k), Lit::S("ab".into()), Lit::I(0)];
+        if r.chance(1, 2) {
+            rows.swap(0, 1);
+        }
+    }
+    Case { schema, rows, pred, int_truthy: false, index_on: None }
+}
+
 fn main() {
     engine::silence_panics();
     let args = Args::parse("C06");
@@ -447,6 +485,14 @@ fn main() {
         let mut r = rng.fork();
         let c = gen_large_or_case(&mut r);
         rep.count("large_or_tree_cases");
+        run_case(&c, &mut model, &mut rep);
+    }
+    // sub-predicates with constant operands under OR / CASE / NOT
+    let n_cs = args.n(200, 5000);
+    for _ in 0..n_cs {
+        let mut r = rng.fork();
+        let c = gen_cached_subpredicate_case(&mut r);
+        rep.count("cached_subpredicate_cases");
         run_case(&c, &mut model, &mut rep);
     }
     // indexed column × range predicates (the index range scan may answer WHERE p on its own)
